@@ -2868,3 +2868,83 @@ func ruleNotificationImmutable(c *Ctx) {
 	}
 	c.Floor("callers of AddNotification", n, 8)
 }
+
+// ---------------------------------------------------------------------------
+// param-used (C17, C19): restricted to functions that report a size (name contains "Size", integer result) - the
+// unrestricted rule flags nine handlers and callbacks of the pinned tree whose signature is dictated by a table. A
+// named parameter that the body never mentions is a value the caller supplies and the function answers without: `GetExpectedBlockSizeWithoutTransactions(txCount)` that sizes the count prefix from
+// the receiver's own transaction list reports the size of another block than the one asked about. Methods that
+// implement an interface of the module (where the signature is imposed) and parameters named `_` are exempt.
+func ruleParamUsed(c *Ctx, pkgs ...string) {
+	want := map[string]bool{}
+	for _, p := range pkgs {
+		want[p] = true
+	}
+	// interface method names declared in the module (signature imposed on implementers)
+	ifaceMethods := map[string]bool{}
+	for _, pk := range c.P.Pkgs {
+		sc := pk.Types.Scope()
+		for _, name := range sc.Names() {
+			if tn, ok := sc.Lookup(name).(*types.TypeName); ok {
+				if it, ok := tn.Type().Underlying().(*types.Interface); ok {
+					for i := 0; i < it.NumMethods(); i++ {
+						ifaceMethods[it.Method(i).Name()] = true
+					}
+				}
+			}
+		}
+	}
+	n := 0
+	for _, fd := range c.P.AllFuncDecls() {
+		if !want[pkgRel(fd.Pkg.Types)] || fd.Decl.Body == nil || fd.Decl.Type.Params == nil {
+			continue
+		}
+		if fd.Decl.Recv != nil && ifaceMethods[fd.Decl.Name.Name] {
+			continue
+		}
+		// size computations only: a function that reports a size (name contains "Size", integer result)
+		if !strings.Contains(fd.Decl.Name.Name, "Size") {
+			continue
+		}
+		if res := fd.Obj.Type().(*types.Signature).Results(); res.Len() == 0 {
+			continue
+		} else if b, ok := res.At(0).Type().Underlying().(*types.Basic); !ok || b.Info()&types.IsInteger == 0 {
+			continue
+		}
+		info := fd.Pkg.TypesInfo
+		used := map[types.Object]bool{}
+		ast.Inspect(fd.Decl.Body, func(x ast.Node) bool {
+			if id, ok := x.(*ast.Ident); ok {
+				if o := info.Uses[id]; o != nil {
+					used[o] = true
+				}
+			}
+			return true
+		})
+		for _, fld := range fd.Decl.Type.Params.List {
+			for _, nm := range fld.Names {
+				if nm.Name == "_" {
+					continue
+				}
+				o := info.Defs[nm]
+				if o == nil {
+					continue
+				}
+				n++
+				if used[o] {
+					continue
+				}
+				key := "param-used." + FuncKey(fd.Obj) + "." + nm.Name
+				if why, ok := paramUnusedOK[FuncKey(fd.Obj)+"."+nm.Name]; ok {
+					c.OK(key, c.P.Pos(nm.Pos()), "tabled: "+why)
+					continue
+				}
+				c.Fail(key, c.P.Pos(nm.Pos()), fmt.Sprintf("%s never uses its parameter %s: the answer does not depend on what the caller asked about", FuncKey(fd.Obj), nm.Name))
+			}
+		}
+	}
+	c.OK("param-used.scope", "", fmt.Sprintf("%d named parameters examined in %s", n, strings.Join(pkgs, ", ")))
+	c.Floor("named parameters of size functions", n, 3)
+}
+
+var paramUnusedOK = map[string]string{}
